@@ -204,6 +204,19 @@ func (fr *Frame) execAppend(ins ssa.CallInstruction, cc *ssa.CallCommon) Term {
 				hi = sto(hi, dst, Term{srcCell(fmt.Sprint(j)), srt})
 			}
 			c.setHeap(fr.st, srt, ite(inplace, hi, h))
+			// view-level consequences (derived; stated in the syntactic form contracts use, so
+			// that quantifier instantiation finds them): the result's prefix is the old content
+			// and its new elements are the appended ones
+			nhv := fr.st.heaps[heapName(srt)]
+			resCell := func(j string) string {
+				return lp.ptr(Term{fmt.Sprintf("(pelem (sbase %s) (+ (soff %s) %s))", res.S, res.S, j), SPtr}).S
+			}
+			oldCell := lp.ptr(Term{fmt.Sprintf("(pelem (sbase %s) (+ (soff %s) j))", s.S, s.S), SPtr}).S
+			fr.assumeHere(Term{fmt.Sprintf("(forall ((j Int)) (! (=> (and (<= 0 j) (< j %s)) (= (select %s %s) (select %s %s))) :pattern ((select %s %s))))",
+				oldLen.S, nhv.S, resCell("j"), h.S, oldCell, nhv.S, resCell("j")), SBool})
+			for j := int64(0); j < k; j++ {
+				fr.assumeHere(Term{fmt.Sprintf("(= (select %s %s) %s)", nhv.S, resCell(fmt.Sprintf("(+ %s %d)", oldLen.S, j)), srcCell(fmt.Sprint(j))), SBool})
+			}
 			continue
 		}
 		fr.assumeHere(Term{fmt.Sprintf("(forall ((j Int)) (! (=> (and (<= %s j) (< j %s)) (= (select %s %s) %s)) :pattern ((select %s %s))))",
